@@ -40,7 +40,38 @@ func hasPrefixKey(keys []string) bool {
 // ---------------------------------------------------------------------------
 // C01: indexed keys are found with their own value.
 
+// checkFuzzC01 is the oracle of the native fuzz target FuzzC01 (and of its replay
+// files): the model-based checks of C01, C02, C10, of C09 when values are stored and
+// of C03 when the case is Complete, all on the same decoded case.
+func checkFuzzC01(c *Case, s *Stats) error {
+	type ck struct {
+		prop string
+		fn   func(*Case, *Stats) error
+	}
+	checks := []ck{{"C01", checkC01}, {"C02", checkC02}, {"C10", checkC10}}
+	if c.HasVals && c.Enc != "Dummy" {
+		checks = append(checks, ck{"C09", checkC09})
+	}
+	if c.Opt.complete() {
+		checks = append(checks, ck{"C03", checkC03})
+	}
+	for _, k := range checks {
+		cc := *c
+		cc.Gen = "fuzz-" + k.prop // the oracles themselves do not dispatch again
+		if err := k.fn(&cc, s); err != nil {
+			if v, ok := err.(*violation); ok {
+				return viol(v.kind, "[%s oracle] %s", k.prop, v.msg)
+			}
+			return err
+		}
+	}
+	return nil
+}
+
 func checkC01(c *Case, s *Stats) error {
+	if c.Gen == "fuzz" {
+		return checkFuzzC01(c, s)
+	}
 	if c.Gen == "concurrent-round" {
 		// a replay: the outcome depends on the schedule, so the round is repeated
 		for rep := 0; rep < 40; rep++ {
